@@ -3,13 +3,13 @@ package main
 // Evaluation of contract expressions into SMT terms against a symbolic state.
 
 import (
-	"sort"
 	"fmt"
-	"os"
 	"go/constant"
 	"go/token"
 	"go/types"
 	"math/big"
+	"os"
+	"sort"
 	"strconv"
 	"strings"
 
@@ -17,31 +17,31 @@ import (
 )
 
 type Env struct {
-	tr       *FnTrans
-	vars     map[string]Val
-	override map[string]Val
-	heap     *Heap
-	oldHeap  *Heap
-	block    *ssa.BasicBlock // program point for local-name resolution (nil = entry)
-	idx      int
-	results  []Val
-	resNames []string
-	atReturn bool
-	pkg      *types.Package
-	imports  map[string]*types.Package
-	quiet    bool
-	own      bool // evaluating the contract of the function being translated
-	pol      int  // +1: must be proved, -1: may be used, 0: unknown
-	lets     map[string]*Expr // abbreviations of the contract being evaluated (callee contracts at call sites)
-	instOnly []Val // when set: instantiate quantified hypotheses with exactly these terms and drop the quantified original
-	inQuant  bool
-	bound    map[string]Val
-	invoked  map[string]invokedFn
-	entryParams bool // inside old(): parameter names denote entry values even where a loop variable of the same name exists
-	visited  map[*ssa.Range]string // ghost state of range-over-map loops at this program point
-	qvals    []Val           // values of the enclosing quantifiers' bound variables (outermost first)
-	altBlock *ssa.BasicBlock // second program point tried for local names (the call site of before/after)
-	altIdx   int
+	tr          *FnTrans
+	vars        map[string]Val
+	override    map[string]Val
+	heap        *Heap
+	oldHeap     *Heap
+	block       *ssa.BasicBlock // program point for local-name resolution (nil = entry)
+	idx         int
+	results     []Val
+	resNames    []string
+	atReturn    bool
+	pkg         *types.Package
+	imports     map[string]*types.Package
+	quiet       bool
+	own         bool             // evaluating the contract of the function being translated
+	pol         int              // +1: must be proved, -1: may be used, 0: unknown
+	lets        map[string]*Expr // abbreviations of the contract being evaluated (callee contracts at call sites)
+	instOnly    []Val            // when set: instantiate quantified hypotheses with exactly these terms and drop the quantified original
+	inQuant     bool
+	bound       map[string]Val
+	invoked     map[string]invokedFn
+	entryParams bool                  // inside old(): parameter names denote entry values even where a loop variable of the same name exists
+	visited     map[*ssa.Range]string // ghost state of range-over-map loops at this program point
+	qvals       []Val                 // values of the enclosing quantifiers' bound variables (outermost first)
+	altBlock    *ssa.BasicBlock       // second program point tried for local names (the call site of before/after)
+	altIdx      int
 }
 
 type evalErr struct{ msg string }
